@@ -23,7 +23,11 @@ def run(tier, seed):
     n_traces, n_events, rej, owned = sc.judge(v, PROP, out, scen, trace, sc.C10_SIGS, sc.C10_CLAUSES)
     from props import system_common
     syscov, _ = system_common.run(v, PROP, tier, seed)
+    # which refs a configured fetch would update: refspecs written by `wrgl remote ...` (engine remotecfg)
+    from props import remotecfg_common
+    rcov, _ = remotecfg_common.run(v, PROP, tier, seed)
     cov = {
+        "remotecfg": rcov,
         "system_behaviours": syscov,
         "states": res.distinct, "transitions": res.generated,
         "traces_validated_against_impl": n_traces - rej,
